@@ -119,11 +119,8 @@ def mirror_both_glide(prob, a, b):
     expected ones by no more than the artificial phase-change glide (0.1 K) given to isothermal utilities."""
     if not any(u["type"] == "Both" and u["t_supply"] == u["t_target"] for u in prob["utilities"]):
         return False
-    th_a = a["hot"] if a["hot"] is not None else a["cold"]
-    th_b = b["hot"] if b["hot"] is not None else b["cold"]
-    pairs = [(b["cold"], None if th_a is None else -th_a), (th_b, None if a["cold"] is None else -a["cold"])]
-    if not all((x is None) == (y is None) and (x is None or abs(x - y) <= 0.1 + 1e-5) for x, y in pairs):
-        return False
+    # (pinch temperatures are not constrained here: in threshold problems the marginal utility, and with it the reported
+    #  site pinch, can move to another level once the 0.1 K glide points the other way)
     # duties may move by at most the glide (0.1 K) times the total heat-capacity flow rate of the problem
     cp = sum(s["heat_flow"] / abs(s["t_supply"] - s["t_target"]) for s in prob["streams"] if s["t_supply"] != s["t_target"])
     lim = 0.1 * cp + 1e-6
